@@ -294,21 +294,29 @@ def h_float_degenerate(sx, cfg):
             ("tiny-default-ref", (1e6, 1e6), (1e6 + 1, 1e6 + 2), (1, 2), 1e-20, None),
             ("small-but-fine", (0.0, 0.0), (1.0, 2.0), (2, 4), 1e-3, (10.0, -10.0)),
             ("1d-tiny-far-ref", 0.0, 1.0, 4, 1e-20, 1e6),
+            # translations so far that an edge is absorbed by rounding ("factor" is the vector here)
+            ("translate-huge-one-axis", (0.0, 0.0), (1.0, 2.0), (2, 2), (1e20, 0.0), None),
+            ("translate-huge-negative", (0.0, 0.0), (1.0, 2.0), (2, 2), (-3e17, 4e16), None),
+            ("translate-large-but-fine", (0.0, 0.0), (1.0, 2.0), (2, 2), (1e6, -1e6), None),
+            ("translate-1d-huge", 0.0, 1.0, 4, 1e20, None),
         ):
             def make():
                 r = df.Region(p1=p1, p2=p2)
                 return r if kindobj == "region" else df.Mesh(region=r, n=n)
             kw = {} if ref is None else dict(reference_point=ref)
+            step = lambda o, ip: o.scale(factor, inplace=ip, **kw)  # noqa: E731
+            if tag.startswith("translate"):
+                step = lambda o, ip: o.translate(factor, inplace=ip)  # noqa: E731
             a, b = make(), make()
             reg = (lambda o: o) if kindobj == "region" else (lambda o: o.region)
             before = (np.array(reg(b).pmin, dtype=float).copy(), np.array(reg(b).pmax, dtype=float).copy())
             try:
-                cp = a.scale(factor, inplace=False, **kw)
+                cp = step(a, False)
                 cp_exc = None
             except (ValueError, TypeError) as ex:
                 cp, cp_exc = None, type(ex).__name__
             try:
-                ret = b.scale(factor, inplace=True, **kw)
+                ret = step(b, True)
                 ip_exc = None
             except (ValueError, TypeError) as ex:
                 ret, ip_exc = None, type(ex).__name__
